@@ -38,3 +38,4 @@ void run_enc_world();   // also api programs and multi-instance
 void run_dec_world();
 void run_srm_world();
 void run_seg_world();
+void run_aomenc_world();   // stream generator (libaom encoder), not a simulation
